@@ -69,13 +69,14 @@ def flattenedVals : List QR → List PV
 def verSuccess (l r : PV) : VER := .cmp (.success (.value l r))
 def verFail (l r : PV) : VER := .cmp (.fail (.value l r))
 
-/-- `match_value` (operators.rs:178-207): any error other than `NotComparable` is `unreachable!()`. -/
+/-- `match_value` (operators.rs:178-207): an error of the comparator (types that cannot be compared, a
+    regex whose evaluation fails) makes the pair not comparable. -/
 def matchValue (cmp : PV → PV → Outcome Bool) (l r : PV) : Outcome VER :=
   match cmp l r with
   | .ok true => .ok (verSuccess l r)
   | .ok false => .ok (verFail l r)
   | .err .NotComparable => .ok (.cmp (.notComparable l r))
-  | .err _ => .panic .matchValueUnreachable
+  | .err _ => .ok (.cmp (.notComparable l r))
   | .panic s => .panic s
   | .outOfFuel => .outOfFuel
 
